@@ -39,7 +39,8 @@ structure Fns where
   sym : Nat → Val → Val
   symSG : Val → Val
   cut : Nat → Val → Val
-  produce : Val → Val
+  /-- `get_fc2(dataset, is_compact_fc)` -/
+  produce : Bool → Val → Val
   symNac : Val → Val
   isWang : Val → Bool
   /-- `fc2 * frequency_scale_factor**2` (deprecated constructor option) -/
@@ -50,6 +51,12 @@ structure Fns where
   setE : Val → Val → Val
   /-- the displacements of a dataset value (what the displaced supercells are built from) -/
   dispOf : Val → Val
+  /-- the dataset `generate_displacements(distance_k)` creates (no forces) -/
+  gen : Val → Val
+  /-- `forces_in_dataset` of a dataset value -/
+  hasForces : Val → Bool
+  /-- the force-constant array is in the compact layout -/
+  isCompact : Val → Bool
 
 /-- what a heap cell is: a force-constant array, a NAC-parameter dict, a dataset dict -/
 inductive Kind | fc | nac | ds
@@ -89,6 +96,14 @@ structure DMObj where
   gonze : Option Val
   deriving DecidableEq, Repr
 
+/-- what determines the phonons of one dynamical-matrix object -/
+structure Phonons where
+  cls : DMClass
+  fc : Val
+  nac : Option Val
+  masses : Val
+  deriving DecidableEq, Repr
+
 /-- a `GroupVelocity` object holds the dynamical-matrix object it was constructed with -/
 structure GVObj where
   dm : DMObj
@@ -104,6 +119,12 @@ structure Obj where
   gv : Option GVObj
   /-- the deprecated constructor option `frequency_scale_factor` is set -/
   fsf : Bool := false
+  /-- result objects (`Mesh`, `BandStructure`, `ThermalProperties`, `TotalDos`): snapshots of the
+  phonons they were computed from; no setter ever resets them -/
+  mesh : Option Phonons := none
+  band : Option Phonons := none
+  tp : Option Phonons := none
+  dos : Option Phonons := none
   deriving DecidableEq, Repr
 
 def Obj.init (masses : Option Val) (fsf : Bool := false) : Obj :=
@@ -113,16 +134,28 @@ structure St where
   h : Heap
   o : Obj
 
-inductive Err | noFc | noMasses | noDataset | noDM | badRef
+inductive Err | noFc | noMasses | noDataset | noDM | badRef | noMesh | noForces | notFull
   deriving DecidableEq, Repr
 
-inductive Query | freq | freqGV | getFc | getNac | getMasses | getDataset | getDisps
+/-- result objects kept by `Phonopy` -/
+inductive Derived | mesh | band | tp | dos
+  deriving DecidableEq, Repr
+
+inductive Query
+  | freq | freqGV | getFc | getNac | getMasses | getDataset | getDisps
+  /-- `run_mesh` / `run_band_structure` / `run_thermal_properties` / `run_total_dos` (and read the result) -/
+  | run (d : Derived)
+  /-- read the stored result object (`get_mesh_dict`, …) without running anything -/
+  | get (d : Derived)
   deriving DecidableEq, Repr
 
 inductive Op
   | newArr (v : Val) (own : Bool) (k : Kind)
   | setFc (a : ArrRef)
-  | produceFc
+  /-- `ph.produce_force_constants(calculate_full_force_constants = !compact)` -/
+  | produceFc (compact : Bool)
+  /-- `ph.generate_displacements(distance_k)` -/
+  | generate (k : Val)
   /-- `ph.forces = f` -/
   | setForces (f : Val)
   /-- `ph.supercell_energies = e` -/
@@ -140,14 +173,6 @@ inductive Op
   | query (q : Query)
   deriving DecidableEq, Repr
 
-/-- what determines the phonons of one dynamical-matrix object -/
-structure Phonons where
-  cls : DMClass
-  fc : Val
-  nac : Option Val
-  masses : Val
-  deriving DecidableEq, Repr
-
 structure Result where
   ph : Phonons
   gv : Option Phonons
@@ -160,6 +185,7 @@ inductive Out
   | ref (a : Option ArrRef) (v : Option Val)
   | val (v : Option Val)
   | phonons (r : Result)
+  | snap (p : Option Phonons)
   | copied (c : Obj)
   deriving DecidableEq, Repr
 
@@ -169,6 +195,7 @@ inductive Obs
   | err (e : Err)
   | val (v : Option Val)
   | phonons (r : Result)
+  | snap (p : Option Phonons)
   | copied (masses : Option Val)
   deriving DecidableEq, Repr
 
@@ -179,6 +206,7 @@ def Out.obs : Out → Obs
   | .ref _ v => .val v
   | .val v => .val v
   | .phonons r => .phonons r
+  | .snap p => .snap p
   | .copied c => .copied c.masses
 
 def clsOf (F : Fns) : Option Val → DMClass
@@ -244,6 +272,9 @@ def gvOr (g : Option GVObj) (d : DMObj) : GVObj :=
   | none => ⟨d⟩
   | some g => g
 
+def Obj.derivedGet (o : Obj) : Derived → Option Phonons
+  | .mesh => o.mesh | .band => o.band | .tp => o.tp | .dos => o.dos
+
 /-- in-place update of the force constants followed by the guarded rebuild -/
 def inPlace (F : Fns) (s : St) (f : Val → Val) : St × Out :=
   match s.o.fc with
@@ -255,11 +286,17 @@ def step (F : Fns) (s : St) : Op → St × Out
   | .setFc a =>
     if a < s.h.next ∧ s.h.kind a = .fc then fin (setDMIfMasses F s.h { s.o with fc := some a })
     else (s, .err .badRef)
-  | .produceFc =>
+  | .produceFc c =>
     match s.o.dataset with
     | none => (s, .err .noDataset)
     | some ds =>
-      fin (setDMIfMasses F (s.h.alloc (F.produce (s.h.cells ds)) true .fc) { s.o with fc := some s.h.next })
+      -- `raise ForcesetsNotFoundError` unless every displacement has forces
+      if F.hasForces (s.h.cells ds) then
+        fin (setDMIfMasses F (s.h.alloc (F.produce c (s.h.cells ds)) true .fc) { s.o with fc := some s.h.next })
+      else (s, .err .noForces)
+  | .generate k =>
+    -- `self.dataset = displacement_dataset` (setter: deep copy, displaced supercells invalidated)
+    (⟨s.h.alloc (F.gen k) true .ds, { s.o with dataset := some s.h.next, disps := none }⟩, .ok)
   | .setForces f =>
     -- `_set_forces_energies` writes into the stored (deep-copied) dataset; the caller's forces are copied
     match s.o.dataset with
@@ -275,9 +312,13 @@ def step (F : Fns) (s : St) : Op → St × Out
     | none => (s, .err .noDataset)
     | some ds =>
       let h1 := s.h.write ds (F.setF f (s.h.cells ds))
-      fin (setDMIfMasses F (h1.alloc (F.produce (h1.cells ds)) true .fc) { s.o with fc := some h1.next })
+      fin (setDMIfMasses F (h1.alloc (F.produce false (h1.cells ds)) true .fc) { s.o with fc := some h1.next })
   | .symmetrizeFc level => inPlace F s (F.sym level)
-  | .symmetrizeFcSpaceGroup => inPlace F s F.symSG
+  | .symmetrizeFcSpaceGroup =>
+    -- `set_tensor_symmetry_PJ` indexes a full array: a compact one raises IndexError before anything is written
+    match s.o.fc with
+    | none => (s, .err .noFc)
+    | some a => if F.isCompact (s.h.cells a) then (s, .err .notFull) else inPlace F s F.symSG
   | .cutoff r => inPlace F s (F.cut r)
   | .setNac a =>
     match a with
@@ -313,6 +354,32 @@ def step (F : Fns) (s : St) : Op → St × Out
       (⟨s.h, { s.o with dm := some d', gv := some ⟨gd⟩ }⟩,
         .phonons { ph := phononsOf s.h d' m, gv := some (phononsOf s.h gd m) })
     | _, _ => (s, .err .noDM)
+  | .query (.run .mesh) =>
+    match s.o.dm, s.o.masses with
+    | some d, some m =>
+      let d' := touchGonze s.h d
+      let gv := s.o.gv.map fun g => if g.dm.id = d.id then (⟨d'⟩ : GVObj) else g
+      (⟨s.h, { s.o with dm := some d', gv := gv, mesh := some (phononsOf s.h d' m) }⟩,
+        .phonons { ph := phononsOf s.h d' m, gv := none })
+    | _, _ => (s, .err .noDM)
+  | .query (.run .band) =>
+    match s.o.dm, s.o.masses with
+    | some d, some m =>
+      let d' := touchGonze s.h d
+      let gv := s.o.gv.map fun g => if g.dm.id = d.id then (⟨d'⟩ : GVObj) else g
+      (⟨s.h, { s.o with dm := some d', gv := gv, band := some (phononsOf s.h d' m) }⟩,
+        .phonons { ph := phononsOf s.h d' m, gv := none })
+    | _, _ => (s, .err .noDM)
+  | .query (.run .tp) =>
+    -- `ThermalProperties(self._mesh, …)`: computed from the stored mesh object
+    match s.o.mesh with
+    | none => (s, .err .noMesh)
+    | some p => (⟨s.h, { s.o with tp := some p }⟩, .phonons { ph := p, gv := none })
+  | .query (.run .dos) =>
+    match s.o.mesh with
+    | none => (s, .err .noMesh)
+    | some p => (⟨s.h, { s.o with dos := some p }⟩, .phonons { ph := p, gv := none })
+  | .query (.get d) => (s, .snap (s.o.derivedGet d))
   | .query .getFc => (s, .ref s.o.fc (s.o.fc.map s.h.cells))
   | .query .getNac => (s, .ref s.o.nac (s.o.nac.map s.h.cells))
   | .query .getMasses => (s, .val s.o.masses)
@@ -347,11 +414,12 @@ structure Spec where
   masses : Option Val
   dataset : Option Val
   fsf : Bool
-  deriving DecidableEq, Repr
+  /-- which `run_*` have been executed on the object (a fresh object is compared after the same) -/
+  ran : Derived → Bool := fun _ => false
 
 def abs (s : St) : Spec :=
   { fc := s.o.fc.map s.h.cells, nac := s.o.nac.map s.h.cells, masses := s.o.masses,
-    dataset := s.o.dataset.map s.h.cells, fsf := s.o.fsf }
+    dataset := s.o.dataset.map s.h.cells, fsf := s.o.fsf, ran := fun d => (s.o.derivedGet d).isSome }
 
 /-- a fresh object (constructed with the same options) given force constants `fc` -/
 def specPhonons (F : Fns) (fsf : Bool) (fc : Val) (nac : Option Val) (m : Val) : Phonons :=
@@ -366,11 +434,29 @@ def specQuery (F : Fns) (sp : Spec) : Query → Obs
     match sp.fc, sp.masses with
     | some fc, some m => .phonons { ph := specPhonons F sp.fsf fc sp.nac m, gv := some (specPhonons F sp.fsf fc sp.nac m) }
     | _, _ => .err .noDM
+  | .run .mesh | .run .band =>
+    match sp.fc, sp.masses with
+    | some fc, some m => .phonons { ph := specPhonons F sp.fsf fc sp.nac m, gv := none }
+    | _, _ => .err .noDM
+  | .run .tp | .run .dos =>
+    -- a fresh object on which `run_mesh` was (not) run before
+    match sp.ran .mesh, sp.fc, sp.masses with
+    | true, some fc, some m => .phonons { ph := specPhonons F sp.fsf fc sp.nac m, gv := none }
+    | _, _, _ => .err .noMesh
+  | .get d =>
+    match sp.ran d, sp.fc, sp.masses with
+    | true, some fc, some m => .snap (some (specPhonons F sp.fsf fc sp.nac m))
+    | _, _, _ => .snap none
   | .getFc => .val sp.fc
   | .getNac => .val sp.nac
   | .getMasses => .val sp.masses
   | .getDataset => .val sp.dataset
   | .getDisps => .val (sp.dataset.map F.dispOf)
+
+/-- queries that read a stored result object instead of the dynamical matrix -/
+def Query.readsDerived : Query → Bool
+  | .run .tp | .run .dos | .get _ => true
+  | _ => false
 
 /-- the arrays an object can reach -/
 def Obj.refs (o : Obj) : List ArrRef :=
@@ -399,6 +485,10 @@ def St.digest (s : St) : String :=
     | some _, none => "stale"
   "fc=" ++ so (s.o.fc.map s.h.cells) ++ " nac=" ++ so (s.o.nac.map s.h.cells) ++ " m=" ++ so s.o.masses ++
     " ds=" ++ so (s.o.dataset.map s.h.cells) ++ " disps=" ++ so s.o.disps ++ " dm=" ++ dm ++ " gv=" ++ gv ++
-    " fcref=" ++ so s.o.fc
+    " fcref=" ++ so s.o.fc ++ " derived=" ++
+      ",".intercalate ([Derived.mesh, .band, .tp, .dos].map fun d => match s.o.derivedGet d with
+        | none => "-"
+        | some p => (match p.cls with | .plain => "plain" | .wang => "wang" | .gl => "gl") ++ ":" ++ toString p.fc ++ ":" ++
+            so p.nac ++ ":" ++ toString p.masses)
 
 end PhononModel.Api
